@@ -4,6 +4,7 @@ import StepModel.P21.ReaderLemmas16
 import StepModel.P21.ReaderLemmas19
 import StepModel.P21.ReaderLemmas20
 import StepModel.P21.ReaderLemmas21
+import StepModel.P21.ReaderLemmas22
 import StepModel.Generated.P21RWGen
 /-! # C03 — the reader never reports a violating file as clean: property theorems
 
@@ -1544,6 +1545,20 @@ theorem C03_wrong_kind_integer_element_detected {F} (env : Env F) (hcfg : env.le
     (hsemi : env.lex.criStopsAtSemicolon = true → ∀ b ∈ j0 :: js, b ≠ 59) (before : List Byte) (hb : Seps before) :
     ElemRdS env .integer { tok := j0 :: js, before := before, after := [], v := .atom .unset } .warning :=
   ElemRdS.integer_junk env hcfg hagg j0 js hj0s hj047 hj092 hj0d hj043 hj045 hj hsemi before hb
+
+/-- **an integer with something behind it as an element of an aggregate of INTEGER** (re-export of
+    `ElemRdS.integer_tok_junk`; `( 1 , 2X , 3 )`, `( 1.5 )`: a text that *starts like* an integer): the integer is stored,
+    the rest - no digit, blank or `/` first, no `,` `)` `;` - is reported: WARNING, the loop goes on behind it; with
+    `C03_violation_inside_aggregate_detected` and `C03_violation_confined_partial` up to the file verdict -/
+theorem C03_integer_element_with_trailing_garbage_detected {F} (env : Env F) (hcfg : env.lex.criSkipsComments = true)
+    (hagg : env.cfg.aggrSkipsComments = true) (tok : List Byte) (htok : Grammar.isInteger tok = true)
+    (hlo : IStream.longMin ≤ Grammar.denoteInteger tok) (hhi : Grammar.denoteInteger tok < IStream.longMax)
+    (j0 : Byte) (js : List Byte) (hj0s : isSpace j0 = false) (hj047 : j0 ≠ 47) (hj0d : isDigit j0 = false)
+    (hj : ∀ b ∈ j0 :: js, delimAt env.lex attrDelims b = false)
+    (hsemi : env.lex.criStopsAtSemicolon = true → ∀ b ∈ j0 :: js, b ≠ 59) (before : List Byte) (hb : Seps before) :
+    ElemRdS env .integer { tok := tok ++ j0 :: js, before := before, after := [],
+                           v := .atom (.int (Grammar.denoteInteger tok)) } .warning :=
+  ElemRdS.integer_tok_junk env hcfg hagg tok htok hlo hhi j0 js hj0s hj047 hj0d hj hsemi before hb
 
 /-- **undeclared item in an aggregate of ENUMERATION / BOOLEAN / LOGICAL** (re-export of `ElemRdS.enum_undeclared`) -/
 theorem C03_undeclared_enum_element_detected {F} (env : Env F) (hcfg : env.lex.criSkipsComments = true)
